@@ -37,6 +37,7 @@ type c01Mon struct {
 	ctx        *vCtx
 	mayCancel  bool
 	cancelled  bool
+	maxFails   int  // > 0: at most this many failed attempts (for runs with an unbounded symbolic budget)
 	errForms   bool // failing attempts return errors in several forms (plain / context-wrapping / typed nil)
 }
 
@@ -67,7 +68,7 @@ func (m *c01Mon) exec(p any) (any, error) {
 	vAssert(vSame(p, m.prepTok), "exec-gets-prep-value")
 	m.execs++
 	m.maybeCancel()
-	if vNondet[bool]("execFail") {
+	if (m.maxFails == 0 || m.execs <= m.maxFails) && vNondet[bool]("execFail") {
 		m.state = c01ExecFailed
 		m.lastErr = vNewErr()
 		if m.errForms {
@@ -192,6 +193,35 @@ func VH_C01_struct() {
 	m := c01NewMon(N)
 	n := &c01StructNode{BaseNode: NewBaseNode(WithMaxRetries(N)), m: m}
 	act, err := Run(m.ctx, n, m.store)
+	m.finish(act, err)
+}
+
+// (a') the same with ANY budget >= 1: the budget stays symbolic (no upper bound — the solver decides
+// for every budget, including ones near the top of the int range), scripts of at most F failures
+func VH_C01_anyBudget() {
+	F := vParam("F", 3)
+	N := vNondet[int]("N")
+	vAssume(N >= 1)
+	vUnwind(F + 3)
+	m := c01NewMon(0)
+	m.maxFails = F
+	var n Node
+	if vNondet[bool]("functionStyle") {
+		vCover("function-style-node")
+		n = NewNode(
+			WithMaxRetries(N),
+			WithPrepFuncAny(func(ctx context.Context, s *SharedStore) (any, error) { return m.prep(s) }),
+			WithExecFuncAny(func(ctx context.Context, p any) (any, error) { return m.exec(p) }),
+			WithExecFallbackFunc(func(p any, err error) (any, error) { return m.fallback(p, err) }),
+			WithPostFuncAny(func(ctx context.Context, s *SharedStore, p, e any) (Action, error) { return m.post(s, p, e) }),
+		)
+	} else {
+		n = &c01StructNode{BaseNode: NewBaseNode(WithMaxRetries(N)), m: m}
+	}
+	act, err := Run(m.ctx, n, m.store)
+	if N > F {
+		vCover("budget-above-every-script")
+	}
 	m.finish(act, err)
 }
 
